@@ -100,6 +100,22 @@ DijkstraMechChecks(g, a) ==
              LET c == a.ss[i].calls[k] IN
              (c.has_raw /\ c.ans.e = "" /\ Len(a.adj) = Len(g.nodes)) => DijkstraCallOK(g, adj, a.ss[i].weighted, a.ss[i].s, c)>>>>
 
+(* Graphs with 2^64 and more shortest paths between some pairs: beyond the exact oracle (TLC's integers are
+   32-bit).  What is judged: the call returns one finite, non-negative entry per node, and the identity
+   sum of raw hop-count betweenness = sum over connected ordered pairs of (distance - 1) (halved when
+   undirected) holds to 1e-6 relative; the harness computes both sides (logged as rel_err_e9). *)
+BigCountChecks(a) ==
+  <<<<"betweenness", \A i \in DOMAIN a.big :
+        LET c == a.big[i] IN
+        /\ c.e = "" /\ c.entries_ok /\ c.finite /\ c.nonneg
+        /\ c.rel_err_e9 <= 1000>>>>
+
+(* C08 on weights that are not exactly representable: the exact oracle does not apply, but the property is a
+   relation between the library's own answers - a cutoff / a target restricts the unrestricted answer and
+   never changes a distance (bit patterns) or the path set of the target.  The harness logs both sides. *)
+OptionsFloatChecks(a) ==
+  <<<<"single_source", \A i \in DOMAIN a.rows : a.rows[i].got = a.rows[i].want>>>>
+
 Report(e, group, checks) ==
   LET f == FailedOf(checks) IN
   IF f = {} THEN TRUE ELSE PrintT("NONCONF " \o ToString(e.id) \o " " \o group \o " " \o ToString(f))
@@ -110,6 +126,8 @@ Consume(e) ==
        CASE e.op.suite = "paths" -> /\ Report(e, "paths", PathsChecks(g, e.a))
                                     /\ Report(e, "dijkstra_mech", DijkstraMechChecks(g, e.a))
          [] e.op.suite = "centrality" -> Report(e, "centrality", CentralityChecks(g, e.a))
+         [] e.op.suite = "centrality_big" -> Report(e, "centrality", BigCountChecks(e.a))
+         [] e.op.suite = "options_float" -> Report(e, "paths", OptionsFloatChecks(e.a))
          [] e.op.suite = "weighted" -> /\ Report(e, "algo", PathsChecks(g, e.a))
                                        /\ Report(e, "algo", CentralityChecks(g, e.a))
          [] e.op.suite = "components" -> Report(e, "components", ComponentsChecks(g, e.a))
